@@ -574,7 +574,7 @@ ASSUMPTIONS = [
 
 TIERS = {
     "quick": {"runs": 24000, "chunk": 250, "budget_s": 60},
-    "thorough": {"runs": 2400000, "chunk": 1000, "budget_s": 900},
+    "thorough": {"runs": 1200000, "chunk": 1000, "budget_s": 1500},
 }
 PROBES = [
     "overwrite",
